@@ -23,10 +23,13 @@ def overlay(G):
     A = []
     names = {}
 
+    locs = {}
+
     def sym(region, off, sz, name):
         v = z3.BitVec(name, 8 * sz)
         ex.store(st, Ptr(region, off), sz, v)
         names[name] = v
+        locs[name] = (region, off, sz)
         return v
     for t in range(2):
         base = G.off['timer'] + t * L['Timer']['_size'][0]
@@ -88,11 +91,17 @@ def overlay(G):
                 sym(rid, 16, 2, 'cellword%d' % nstor)
                 nstor += 1
     st.pc += A
+    _S['locs'] = locs
     _S['ov'] = (ex, st, ctx, A, names, nstor)
     return _S['ov']
 
 
 # ------------------------------------------------------------------------------------------------ expected read-back
+def field_locations(G):
+    overlay(G)
+    return {n: l for n, l in _S['locs'].items() if not n.startswith('cellword')}
+
+
 def expectation(a):
     """-> (kind, parameter) from the repository's register documentation (timer.md, apbp.md, ahbm.md, miu.md, dma.md,
     icu.md, btdmp.md, mmio.md); everything not listed is an unbound cell = plain storage"""
